@@ -644,7 +644,7 @@ where
                 }
                 (None, c @ (b'"' | b'\'')) => escape = Some(Escape::Quote(c)),
                 (None, b'\\') => escape = Some(Escape::Slash),
-                (None, c) if c.is_ascii_whitespace() => {
+                (None, c @ (b' ' | b'\t' | b'\n')) => {
                     if !result.is_empty() {
                         terminated_by_newline = c == b'\n';
                         break;
